@@ -20,6 +20,10 @@ CLAIMED['C16'] = ('Coq theorems over Model/CmdParse.v (a concrete model of getop
          'proof: for every well-formed option spec and every sequence of rendered units (clusters, -sV, -s V, --l=V, --l V, flags, inverse flags) followed by positionals, parse returns exactly the written values (last wins, lists accumulate after the configured value), the positionals unchanged, and leaves the parser state unchanged; unknown options / missing or ill-typed values / invalid choices (also items of list options) give a parse error; precedence cmd line > env > DOIT_CONFIG > config file > default; legacy-refuted witnesses for the repaired defects.  Abbreviated long options are covered by the correspondence only',
          'trusted: Coq kernel; hand model Model/CmdParse.v tied by random specs/argv/env/config (644 quick, 9484 thorough cases) against CmdParse/TaskParse/DefaultUpdate/getopt; int()/custom type conversion is an oracle (Section variable conv) checked against Python int(); non-ASCII lower/strip not modelled',
          'DESIGN.md 5-C16')
+CLAIMED['C14'] = ('Coq theorems over Model/Clean.v (CleanDepTree, Clean._execute selection, clean_tasks, clean_targets over an abstract file system): permutation/once by induction over the node list, dependents-first order by an invariant of _get_leafs, exact set / forget / dry-run frame + correspondence through the real clean command',
+         'proof: for every task table, selection and flag combination the cleaned list is exactly the specified set (named + sub-tasks; closure with --clean-dep / no positional; all with --clean-all), each task once, and for an acyclic table every dependent is cleaned before what it depends on whenever dependencies are included; --dry-run leaves fs and DB unchanged; --forget erases exactly the cleaned records; clean: True removes only existing target files and emptied directories, children first.  Effects of user clean-actions on files are outside the model',
+         'trusted: Coq kernel; hand model Model/Clean.v tied by 343 (quick) / 3023 (thorough) cases through Clean._execute and DoitMain.run([clean ...]) incl. the 13 cases of tests/test_cmd_clean.py; fnmatch is an oracle; the task table is taken as TaskControl.__init__ leaves it',
+         'DESIGN.md 5-C14')
 NOT_YET = {}
 
 def main():
